@@ -66,6 +66,9 @@ fn boundary_set_rules(ins: &[It], outs: &[OutIt]) -> Vec<BasicRule> {
         let mut b = vec![s.clone()]; if let Some(x) = i { b.push(x.clone()); }
         let mut af = vec![]; if let Some(x) = i { af.push(x.clone()); } af.push(s.clone());
         befores.push(b); afters.push(af);
+        // ... and the set as the item NEXT TO the target with something behind it: an alternative that is there, but behind which the rest of the
+        // side does not follow, must not keep a later alternative from being tried (`_ {$, t} a` on /o.ta/)
+        if let Some(x) = i { befores.push(vec![x.clone(), s.clone()]); afters.push(vec![s.clone(), x.clone()]); }
     } }
     for b in &befores { envs.push((b.clone(), vec![])); }
     for af in &afters { envs.push((vec![], af.clone())); }
